@@ -252,8 +252,11 @@ class Ctx:
         ev = {"property_id": self.prop, "tier": self.tier, "seed": self.seed, "level": self.level,
               "coverage": cov, "assumptions": self.assumptions, "wall_s": round(time.time() - self.t0, 2),
               "violations": len(self.violations)}
-        os.makedirs(os.path.join(ROOT, "evidence"), exist_ok=True)
-        p = os.path.join(ROOT, "evidence", self.prop + ".json")
+        evdir = os.environ.get("VERIF_EVIDENCE_DIR") or os.path.join(ROOT, "evidence")
+        if os.path.realpath(REPO) != "/repo" and not os.environ.get("VERIF_EVIDENCE_DIR"):
+            evdir = os.path.join(self.tmp, "evidence")   # selftest on a scratch copy: never touch the real evidence
+        os.makedirs(evdir, exist_ok=True)
+        p = os.path.join(evdir, self.prop + ".json")
         json.dump(ev, open(p + ".tmp", "w"), indent=1, default=str)
         os.replace(p + ".tmp", p)
 
